@@ -225,7 +225,13 @@ where
 /// Converts a compressed GGLWE-to-GGSW key to a mutably-borrowed variant.
 pub trait GGLWEToGGSWKeyCompressedToMut {
     /// Returns a mutably-borrowed view.
+    ///
+    /// The view borrows the bodies but carries a COPY of the PRNG seeds: seeds written through
+    /// the view must be stored back with [`set_seeds`](Self::set_seeds).
     fn to_mut(&mut self) -> GGLWEToGGSWKeyCompressed<&mut [u8]>;
+
+    /// Stores the PRNG seeds of the `i`-th compressed GGLWE.
+    fn set_seeds(&mut self, i: usize, seeds: &[[u8; 32]]);
 }
 
 impl<D: DataMut> GGLWEToGGSWKeyCompressedToMut for GGLWEToGGSWKeyCompressed<D>
@@ -236,5 +242,10 @@ where
         GGLWEToGGSWKeyCompressed {
             keys: self.keys.iter_mut().map(|c| c.to_mut()).collect(),
         }
+    }
+
+    fn set_seeds(&mut self, i: usize, seeds: &[[u8; 32]]) {
+        self.keys[i].seed.clear();
+        self.keys[i].seed.extend_from_slice(seeds);
     }
 }
